@@ -66,10 +66,16 @@ class InjectedPost(Exception):
     pass
 
 
-def exc_class(e):
-    """canonical exception class, the model's enumeration"""
+WARNING_CLASSES = ("UserWarning", "LineExpansionWarning")
+
+
+def exc_class(e, natural=False):
+    """canonical exception class, the model's enumeration (natural: the problem holds an object that raises
+    by itself; the model has one class for that, whatever the object raises)"""
     if e is None:
         return "ok"
+    if isinstance(e, Warning) and not natural:
+        return "WarningClass"      # a warning the filters turned into an error, raised by a format call
     if isinstance(e, FileExistsError):
         return "FileExistsError"
     if isinstance(e, IsADirectoryError):
@@ -297,6 +303,11 @@ class Patched:
             if inj.has("format", kk):
                 if inj.fmt_exc == "ValueError":
                     raise ValueError("injected: format")
+                if inj.fmt_exc == "UserWarning":
+                    raise UserWarning("injected: format (a warning turned into an error)")
+                if inj.fmt_exc == "LineExpansionWarning":
+                    from montepy.errors import LineExpansionWarning
+                    raise LineExpansionWarning("injected: format (a warning turned into an error)")
                 from montepy.errors import IllegalState
                 raise IllegalState("injected: format")
             out = orig(*a, **k)
@@ -337,6 +348,12 @@ def get_problem(text, incomplete):
         s = Surface()
         s.number = max([x.number for x in pr.surfaces] + [0]) + 1
         pr.surfaces.append(s)
+    elif incomplete == "expand_cell":
+        # not incomplete, but edited so that its text expands: under warnings.simplefilter("error") formatting it
+        # raises LineExpansionWarning in the middle of the write sequence
+        cells = list(pr.cells)
+        c = cells[-1] if len(cells) > 1 else cells[0]
+        c.number = 9000000 + c.number
     elif incomplete == "material":
         from montepy.data_inputs.material import Material
         m = Material()
@@ -351,7 +368,7 @@ def get_problem(text, incomplete):
     exc = None
     try:
         with Patched(pr, inj, record=True), warnings.catch_warnings():
-            warnings.simplefilter("ignore")
+            warnings.simplefilter(warning_filter(incomplete))
             try:
                 pr.write_to_file(os.path.join(d, "ref.i"), overwrite=True)
             except Exception as e:       # an incomplete object: expected for those cases
@@ -384,6 +401,11 @@ def get_problem(text, incomplete):
     return pr, ref
 
 
+def warning_filter(incomplete):
+    """expand_* problems are written the way `python -W error` / pytest filterwarnings=error writes them"""
+    return "error" if incomplete and incomplete.startswith("expand") else "ignore"
+
+
 def wire_object(lines):
     if lines is None:
         return "!"
@@ -400,12 +422,12 @@ def wire_problem(ref):
     return "/".join(segs)
 
 
-def wire_adv(faults):
+def wire_adv(faults, fmt_exc="IllegalState"):
     code = {"child": "c", "open": "o", "close": "x", "replace": "r", "remove": "m", "post": "p"}
     out = []
     for f in faults:
         if f[0] == "format":
-            out.append("f%d" % f[1])
+            out.append(("g%d" if fmt_exc in WARNING_CLASSES else "f%d") % f[1])
         elif f[0] == "write":
             out.append("w%d" % f[1])
         else:
@@ -521,7 +543,7 @@ def run_real(case, temp_parts=None):
             os.chdir(cwd)
         try:
             with Patched(pr, inj), warnings.catch_warnings():
-                warnings.simplefilter("ignore")
+                warnings.simplefilter(warning_filter(case.get("incomplete")))
                 try:
                     pr.write_to_file(arg, overwrite=True) if case["ov"] else pr.write_to_file(arg)
                 except Exception as e:
@@ -535,7 +557,8 @@ def run_real(case, temp_parts=None):
         os.chdir(old_cwd)
         shutil.rmtree(root, ignore_errors=True)
     return {"exc": type(exc).__name__ if exc is not None else None, "exc_msg": str(exc)[:200] if exc else None,
-            "cls": exc_class(exc), "pre": pre, "post": post, "pre_else": pre_else, "post_else": post_else,
+            "cls": exc_class(exc, natural=exc is not None and not str(exc).startswith("injected")),
+            "pre": pre, "post": post, "pre_else": pre_else, "post_else": post_else,
             "root_listing": cwd_left, "nf": inj.nf, "nw": inj.nw, "pid": os.getpid(),
             "opened": [os.path.basename(p) for p in inj.opened], "calls": inj.calls,
             "ref_bytes": ref["bytes"].hex() if ref["bytes"] is not None else None, "counts": ref["counts"]}
@@ -649,7 +672,7 @@ def model_request(case, obs, wire, temp_parts, ref):
         else:
             return None
     return " ".join(["run", wire, "1" if case["ov"] else "0", hx(str(obs["pid"])), hx(base),
-                     ",".join(ents) or "-", wire_problem(ref), wire_adv(case.get("faults", []))])
+                     ",".join(ents) or "-", wire_problem(ref), wire_adv(case.get("faults", []), case.get("fmt_exc"))])
 
 
 def node_wire(node):
@@ -754,15 +777,17 @@ def cases_for_problem(i, seed, tier):
     """all cases of the i-th generated problem (called inside the worker: needs the reference run)"""
     rng = random.Random(f"{seed}:C15:{i}")
     big = tier == "thorough" and i % 10 == 9
-    if i == 0:
+    if i in (0, 1):
         text = MINIMAL
     elif tier == "thorough" and i % 50 == 49:
         text = synthetic_text(rng, rng.choice([60, 120, 200]))
     else:
         text = gen_text(rng, big)
     inc = None
-    if i % 4 == 3:
-        inc = rng.choice(["cell", "surface", "material"])
+    if i == 1:
+        inc = "expand_cell"     # every seed has the `-W error` + expanding number case on the minimal problem
+    elif i % 4 == 3:
+        inc = rng.choice(["cell", "surface", "material", "expand_cell"])
     try:
         pr, ref = get_problem(text, inc)
     except Exception as e:
@@ -783,6 +808,11 @@ def cases_for_problem(i, seed, tier):
             cases.append({"text": text, "incomplete": inc, "state": st, "ov": ov, "base": base,
                           "style": rng.choice(styles), "faults": faults,
                           "fmt_exc": rng.choice(["IllegalState", "ValueError"])})
+            if any(f[0] == "format" for f in faults):
+                # the same position failing with a Warning subclass (a warning turned into an error)
+                cases.append({"text": text, "incomplete": inc, "state": st, "ov": ov, "base": base,
+                              "style": rng.choice(styles), "faults": faults,
+                              "fmt_exc": rng.choice(list(WARNING_CLASSES))})
     # guard states: the adversary is irrelevant there, a few faults each
     for st, ov in (("dir", True), ("dir", False), ("dir_nonempty", True), ("file", False), ("emptyfile", False)):
         for faults in [[]] + rng.sample(sweep, min(3, len(sweep))):
